@@ -33,10 +33,12 @@ def sha256Code : Nat := 0x12
 def Lnk.proto (l : Lnk) : Proto := ⟨l.version, l.codec, l.mhType, l.digest.length⟩
 
 /-- digest truncation of `BuildLink`: identity and "-1" keep the whole hash; otherwise the first
-    `mhLength` bytes (`none` = Go panics on the slice expression). -/
+    `mhLength` bytes - when the hash has that many: a length the hash function cannot supply (a link from untrusted
+    data may claim any) or a negative one leaves the whole hash (since the repair of the slice-bounds panic; the
+    result is an `Option` for the callers' sake and never `none`). -/
 def truncate (p : Proto) (hashsum : Bytes) : Option Bytes :=
   if p.mhType = identityCode ∨ p.mhLength = -1 then some hashsum
-  else if p.mhLength < 0 ∨ (hashsum.length : Int) < p.mhLength then none
+  else if p.mhLength < 0 ∨ (hashsum.length : Int) < p.mhLength then some hashsum
   else some (hashsum.take p.mhLength.toNat)
 
 /-- the CIDv0 guard of `BuildLink` -/
